@@ -50,6 +50,7 @@ struct ItemSpec {
     afters: Vec<(String, Vec<String>)>,
     closures: Vec<(usize, Vec<String>)>, // n-th closure: text spliced between `|..|` and body
     closure_params: Vec<(usize, Vec<String>)>, // n-th closure: explicit parameter types
+    drop_derive: Vec<String>,
     viter: bool,                         // apply R5 (iterator entry) to this item
     attrs: Vec<String>,                  // extra attributes (e.g. verifier::rlimit)
     replace_macros: Vec<(String, String)>, // R1b: statement macro -> nothing (named)
@@ -319,6 +320,7 @@ fn parse_template(text: &str) -> Vec<Result<String, ItemSpec>> {
                         "params" => { if let Some(f) = spec.fragment.as_mut() { f.params = arg.to_string(); } else { die("//@params outside //@frag"); } }
                         "ret" => { if let Some(f) = spec.fragment.as_mut() { f.ret = arg.to_string(); } else { spec.ret = Some(arg.to_string()); } }
                         "viter" => spec.viter = true,
+                        "drop-derive" => spec.drop_derive.push(arg.to_string()),
                         "attr" => spec.attrs.push(arg.to_string()),
                         "loop" => {
                             spec.loops.push((unquote(arg), Vec::new()));
@@ -693,6 +695,7 @@ fn emit_item(
         return;
     }
     let file = spec.file.as_str();
+    rewrite::DROP_DERIVES.with(|d| *d.borrow_mut() = spec.drop_derive.clone());
     let found = find(parsed, &spec.selector);
     if found.len() != 1 {
         die(&format!(
